@@ -271,6 +271,24 @@ func (c *Ctx) mintedInCallback(v ssa.Value, nsid *ssa.Function) bool {
 		return false
 	}
 	m = resolve(m)
+	if prm, ok := m.(*ssa.Parameter); ok {
+		// the map is handed in by the caller(s)
+		args := c.argValues(prm.Parent(), paramIndex(prm))
+		if len(args) == 0 {
+			return false
+		}
+		for _, a := range args {
+			if !c.mapValuesMinted(resolve(a), nsid) {
+				return false
+			}
+		}
+		return true
+	}
+	return c.mapValuesMinted(m, nsid)
+}
+
+// mapValuesMinted: every value stored into the map derives from the id generator.
+func (c *Ctx) mapValuesMinted(m ssa.Value, nsid *ssa.Function) bool {
 	refs := m.Referrers()
 	if refs == nil {
 		return false
